@@ -297,7 +297,12 @@ def _r3_experimental(chk, repo, base, recorded):
             if len(cb.args) != 2 or not same_expr(cb.args[0], rec_arg):
                 problems.append(f"callback is not invoked with the recorded state: {unparse(cb)}")
             elif unparse(cb.args[1]).replace(" ", "") != "len(self._samples)-1":
-                raise AnchorError(f"{inst}: callback index expression `{unparse(cb.args[1])}` is not the known idiom len(self._samples)-1")
+                lv = loop.target.id if isinstance(loop.target, ast.Name) else None
+                if isinstance(cb.args[1], ast.Name) and cb.args[1].id == lv:
+                    problems.append(f"callback index `{lv}` counts the iterations of this call, not the position in the chain "
+                                    f"(wrong after warm-up or a previous sample() call)")
+                else:
+                    raise AnchorError(f"{inst}: callback index expression `{unparse(cb.args[1])}` is not the known idiom len(self._samples)-1")
             if accs and accs[0][2].args and not (isinstance(accs[0][2].args[0], ast.Name)):
                 problems.append("acceptance record is not the value returned by step")
             # the value returned by step is what is appended to _acc
